@@ -12,7 +12,7 @@ monitor:        per evaluated point feasibility (registered tolerance; zero for 
 import random
 
 from .. import runcheck, monitors, problems
-from ..common import unhex, hexd
+from ..common import unhex, hexd, run_model
 
 ALGS = ["NLOPT_LD_SLSQP", "NLOPT_GN_ISRES", "NLOPT_GN_ORIG_DIRECT", "NLOPT_GN_ORIG_DIRECT_L"]
 STOPVAL_ALGS = ALGS + ["NLOPT_LN_COBYLA"]
@@ -89,6 +89,93 @@ def mon_feasible(ri):
     return None
 
 
+def incumbent_events(ri):
+    """the sequence of evaluated points as the incumbent rules of slsqp.c / isres.c see it (algorithm-level sign)"""
+    itol = tolerances(ri.sp["ineq"]) if "ineq" in ri.sp else []
+    etol = tolerances(ri.sp["eq"]) if "eq" in ri.sp else []
+    evs, cur = [], None
+    for c in ri.run.calls:
+        if c.kind == "f":
+            v = unhex(c.val)
+            cur = {"f": -v if ri.maximize else v, "x": c.x, "ineq": {}, "eq": {}}
+            evs.append(cur)
+        elif cur is not None and c.x == cur["x"]:
+            cur["ineq" if c.role == 1 else "eq"][c.i] = [unhex(t) for t in c.val.split(",")]
+    isres = ri.name == "NLOPT_GN_ISRES"
+    lines = []
+    for e in evs:
+        f = e["f"]
+        if isres:
+            feas, pen = 1, 0.0
+            for i, tols in enumerate(itol):
+                for g, t in zip(e["ineq"].get(i, []), tols):
+                    if g > t:
+                        feas = 0
+                    if g < 0:
+                        g = 0.0
+                    pen += g * g
+            gpen = pen
+            for i, tols in enumerate(etol):
+                for h, t in zip(e["eq"].get(i, []), tols):
+                    if abs(h) > t:
+                        feas = 0
+                    pen += h * h
+            lines.append("i %s %d %s %s" % (hexd(f), feas, hexd(pen), hexd(gpen)))
+        else:
+            feas, inf = 1, 0.0
+            if f == f and abs(f) != float("inf"):
+                for i, tols in enumerate(etol):
+                    for h, t in zip(e["eq"].get(i, []), tols):
+                        inf = inf if inf > abs(h) else abs(h)
+                        feas = 1 if (feas and abs(h) <= t) else 0
+                for i, tols in enumerate(itol):
+                    for g, t in zip(e["ineq"].get(i, []), tols):
+                        inf = inf if inf > g else g
+                        feas = 1 if (feas and g <= t) else 0
+            lines.append("s %s %d %s" % (hexd(f), feas, hexd(inf)))
+    return evs, lines
+
+
+def incumbent_correspondence(ctx, batch):
+    """replays the evaluated points of every SLSQP / ISRES run through the Lean incumbent rules (Model/Slsqp.lean, Model/Isres.lean)
+    and compares the model's incumbent with the returned (x, opt_f)"""
+    text, todo = [], []
+    for p, r, ri in batch:
+        if ri is None or ri.ret is None or ri.name not in ("NLOPT_LD_SLSQP", "NLOPT_GN_ISRES") or "stopat" in ri.sp or "inj" in ri.sp:
+            continue
+        if ri.ret in (-1, -2, -3, -5):
+            continue
+        evs, lines = incumbent_events(ri)
+        if not evs:
+            continue
+        text += ["reset"] + lines + ["end i" if ri.name == "NLOPT_GN_ISRES" else "end s"]
+        todo.append((r, ri, evs))
+    if not todo:
+        return
+    out = [l for l in run_model("inc", "\n".join(text) + "\n") if l.strip()]
+    n = bad = fallback = 0
+    if len(out) != len(todo):
+        ctx.broke("correspondence incumbent rules: model driver output", "%d lines for %d runs" % (len(out), len(todo)))
+        return
+    for (r, ri, evs), l in zip(todo, out):
+        minf_h, pt, _ = l.split(" ")
+        minf = unhex(minf_h)
+        if pt == "-" or abs(minf) == float("inf"):
+            fallback += 1          # nothing accepted: slsqp.c returns the last / previous point (not part of the modelled rule)
+            continue
+        n += 1
+        got_f = -ri.optf if ri.maximize else ri.optf
+        want_x = evs[int(pt)]["x"]
+        ok = (hexd(got_f) == minf_h or (got_f != got_f and minf != minf)) and ",".join(ri.xbits) == want_x
+        if not ok:
+            bad += 1
+            if bad == 1:
+                ctx.broke("correspondence incumbent rule (%s): model vs implementation" % ri.name,
+                          "model incumbent: evaluation #%d f=%r; returned opt_f=%r x=%s\n spec: %s" % (int(pt) + 1, minf, got_f, ",".join(ri.xbits), r.spec))
+                ctx.cov.setdefault("first_incumbent_disagreement", {"spec": r.spec, "model": l})
+    ctx.corr["incumbent rules (SLSQP, ISRES)"] = {"runs_replayed": n, "disagreements": bad, "nothing_accepted_fallback_not_modelled": fallback}
+
+
 def run(ctx):
     bdir, A = runcheck.setup(ctx, ["C06"])
     if bdir:
@@ -114,7 +201,53 @@ def run(ctx):
                 if rng.random() < 0.4:
                     p["stopval"] = rng.choice([0.5, 2.0, 10.0]) * (-1 if p.get("max") else 1)
                 ps.append(p)
+        # constraints that are ACTIVE at the optimum, with unequal per-component tolerances (loose first / loose last) and nonzero
+        # scalar tolerances: the incumbent rules only matter when points inside the tolerance band are produced
+        for nm in STOPVAL_ALGS:
+            for _ in range(80 if ctx.thorough else 16):
+                n = rng.choice([2, 2, 3])
+                p = problems.gen_problem(rng, A, alg_name=nm, n=n, with_constraints=False, box="finite", maxeval=rng.choice([60, 150, 400]), allow_max=False)
+                for k in ("stopval", "ftol_rel", "xtol_rel", "xtol_abs", "xw", "maxtime", "clockq"):
+                    p.pop(k, None)
+                p["lb"], p["ub"] = [-3.0] * n, [3.0] * n
+                p["x0"] = [rng.uniform(-0.3, 0.3) for _ in range(n)]
+                p["obj"] = 0
+                d = [rng.gauss(0, 1) for _ in range(n)]
+                nd = sum(t * t for t in d) ** 0.5 or 1.0
+                r = rng.uniform(2.0, 2.8)
+                p["oc"] = [r * t / nd for t in d]
+                loose, tight = rng.choice([1e-2, 5e-2, 0.1]), rng.choice([0.0, 1e-8, 1e-6])
+                if rng.random() < 0.7:
+                    m = rng.choice([2, 3])
+                    tols = [tight] * m
+                    tols[rng.choice([0, 0, m - 1])] = loose
+                    ck = rng.choice([1, 1, 0])
+                    p["ineq"] = "v:%d:%d:%s:%s:%d" % (m, ck, problems.hl(tols), hexd(rng.uniform(0.5, 1.5)), 0)
+                else:
+                    p["ineq"] = "s:1:%s:%s:0;s:0:%s:%s:1" % (hexd(loose), hexd(rng.uniform(0.5, 1.5)), hexd(tight), hexd(rng.uniform(0.3, 1.0)))
+                ps.append(p)
+        # population methods need several generations before the incumbent rule (replace only by a better feasible point) is
+        # exercised by points inside the tolerance band
+        for nm in ("NLOPT_GN_ISRES",):
+            for _ in range(40 if ctx.thorough else 10):
+                n = 2
+                p = problems.gen_problem(rng, A, alg_name=nm, n=n, with_constraints=False, box="finite", maxeval=rng.choice([1000, 2000]), allow_max=False)
+                for k in ("stopval", "ftol_rel", "xtol_rel", "xtol_abs", "xw", "maxtime", "clockq", "pop"):
+                    p.pop(k, None)
+                p["lb"], p["ub"] = [-2.0] * n, [2.0] * n
+                p["x0"] = [0.0] * n
+                p["obj"] = 0
+                ang = rng.uniform(0, 6.28)
+                import math
+                p["oc"] = [2.5 * math.cos(ang), 2.5 * math.sin(ang)]
+                p["ineq"] = "s:1:%s:%s:0" % (hexd(rng.choice([0.05, 0.1, 0.2])), hexd(1.0))
+                p["quietx"] = 0
+                ps.append(p)
         batch = runcheck.run_batch(ctx, bdir, A, ps, [mon_feasible], "constrained runs")
+        try:
+            incumbent_correspondence(ctx, batch)
+        except Exception as e:
+            ctx.broke("incumbent model driver", repr(e))
         nfe = sum(1 for _, r, ri in batch if ri is not None and ri.ret is not None and ri.ret > 0)
         ctx.cov["successful_constrained_runs"] = nfe
         ctx.sample({"spec": batch[0][1].spec})
